@@ -66,6 +66,14 @@ CLAIMED = {
    text="Container sorts over eq-sorts (Vec, Set, MultiSet, Map with integer keys, Pair, one nested level), tables keyed by and holding containers, rules mentioning ground containers (matchable only modulo the current equalities) and unions among their elements. After every command and single iteration the dump with container contents expanded must equal the reference model's (equal contents = one value, rows keyed by equal containers merged), and a naive engine must agree with the semi-naive one. Both rebuild strategies and serial/parallel container rebuild are forced per run by knobs, cut-offs and the token scheduler.",
    note="Map keys are integers, so key collisions (id-order dependent, outside the claim) do not occur; id-order dependent primitives are not generated.",
    tech="deterministic simulation (knobs for incremental/full rebuild, parallel container cut-offs 0, token scheduler) with refinement checking against the reference model plus naive/semi-naive differential"),
+ "C18": dict(cat="exploration", ref="DESIGN §5 C18",
+   text="The Scheduler trait is the seam: a recording scheduler with seeded policies (all; none for k calls then all; random subsets; one at a time; descending indices with duplicates; back-off through the boolean result) steps named rules while the history unions ids held in residual matches, inserts, subsumes, pushes/pops, clones and injects failing rules between the offering and the applying step. Oracles per step: every model match of a rule body (projected to the head's variables, modulo current equalities) has been offered at a seeking step; the previous residual is presented again; newly offered matches are real non-subsumed matches; the database equals the reference model applying exactly the chosen matches canonicalised at apply time; a choose-all scheduler stays equal to a step_rules twin; I(E) after every step; rulesets and schedulers survive a failing step.",
+   note="Matches are compared after projection to the head's variables. Rules whose head variables were renamed by the compiler cannot be read through Match::get_value (it unwraps) and are checked by count only. Two open known findings (dead scheduler after push/pop/clone) are keyed by class plus a snapshot marker in the detail.",
+   tech="deterministic simulation through the Scheduler seam (seeded adversarial policies, state changes between offer and apply) with reference-model and twin-engine oracles"),
+ "C20": dict(cat="fault_enumeration", ref="DESIGN §5 C20",
+   text="Each program (seeded, or an .egg file of the repository that needs no external facts) runs twice in one process and once in each of seven child processes under environment perturbations: default, affinity 16 CPUs and 2 CPUs (DashMap's default shard count depends on available parallelism) versus the worker's single CPU, ASLR off via setarch -R (hash seeds), 200 extra environment variables, cwd=/, 256 KiB less stack. Transcripts hold every command output verbatim and every run report without durations (sorted by rule name) and must be byte-identical.",
+   note="The perturbation set is enumerated completely per program; programs are sampled. Read::tables() order and RunReport's Display ordering by measured time are outside the statement and not compared.",
+   tech="deterministic simulation with environment fault injection across OS processes (affinity, ASLR, environment, cwd, stack), byte-level transcript comparison"),
 }
 NOT_YET = "check not built yet in this round; will be claimed once its check is silent on the unchanged tree and sensitive to seeded breakage"
 NA = {
